@@ -17,8 +17,10 @@ CONSTANTS Dim, MaxTok, MaxStack, Rich,    \* Rich = FALSE: core alphabet (exhaus
                                             \* valued: the leaves are then the vector, its components, divergence and
                                             \* Jacobian instead of the scalar function and its derivatives)
 
-VARIABLES stack, prog, hasv, hasu, done, dg
-vars == <<stack, prog, hasv, hasu, done, dg>>
+VARIABLES stack, prog, hasv, hasu, done, dg,
+          pcst      \* per stack entry: is it a POSITIVE CONSTANT (built from c, 2, 3, 0.5 with + and *)?  In the polynomial
+                    \* fragment a division is offered only by such a divisor (constant, and certainly not zero)
+vars == <<stack, prog, hasv, hasu, done, dg, pcst>>
 
 \* leaves: token |-> type
 USc == NcU = 1   VSc == NcV = 1
@@ -31,7 +33,8 @@ VTokM == IF VSc THEN (IF Rich THEN {"Hv"} ELSE {}) ELSE {"Gv"}
 UToks == {"u", "ux", "uy", "uxp", "uxx", "uxy", "gu", "gup", "Hu", "u0", "u1", "divu", "uvec", "Gu"}
 VToks == {"v", "vx", "vy", "vyp", "gv", "Hv", "w0", "w1", "divv", "vvec", "Gv"}
 LeafS == UTokS \cup VTokS \cup {"c", "two"} \cup
-         (IF Rich THEN {"half", "three", "hpar", "hx"} \cup (IF Poly THEN {} ELSE {"gw"}) ELSE {})
+         (IF Rich THEN {"half", "three", "hpar", "hx"} \cup (IF Poly THEN {} ELSE {"gw", "tiny", "near1"}) ELSE {})
+         \* "tiny" = 2^-27 and "near1" = 1 + 2^-18: literals that a tolerance-based "is this constant 0 / 1?" would fold away
 LeafD == {"f"} \cup (IF Rich THEN {"f2", "cD", "twoD"} ELSE {})
 LeafV == UTokV \cup VTokV \cup (IF Rich THEN {"g", "x", "gh"} ELSE {}) \cup (IF Bnd THEN {"nrm"} ELSE {})
 LeafM == UTokM \cup VTokM \cup (IF Rich THEN {"A", "J", "Ainv", "Jinv"} \cup (IF Poly THEN {} ELSE {"Gg"}) ELSE {"A"})
@@ -44,7 +47,7 @@ UnDV == {"gradD"}
 UnVS == IF Rich THEN (IF Poly THEN {} ELSE {"norm"}) \cup {"v0", "v1"} ELSE {"v0"}
 UnMS == {"det", "tr"} \cup (IF Rich THEN {"m01"} ELSE {})
 UnMM == IF Rich /\ ~Poly THEN {"T", "inv"} ELSE {"T"}
-BinSSS == {"+", "*"} \cup (IF Rich THEN {"-"} \cup (IF Poly THEN {} ELSE {"/"}) ELSE {})
+BinSSS == {"+", "*"} \cup (IF Rich THEN {"-", "/"} ELSE {})
 BinDDD == {"*D"} \cup (IF Rich THEN {"+D", "-D"} \cup (IF Poly THEN {} ELSE {"/D"}) ELSE {})
 BinVVS == {"inner"}
 BinVVV == IF Rich THEN {"v+", "v-"} \cup (IF Dim = 3 THEN {"cross"} ELSE {}) ELSE {}
@@ -71,7 +74,8 @@ DTop(n) == dg[Len(dg) - n + 1]
 Top(n) == stack[Len(stack) - n + 1]
 Pop(n) == SubSeq(stack, 1, Len(stack) - n)
 
-Init == stack = <<>> /\ prog = <<>> /\ hasv = FALSE /\ hasu = FALSE /\ done = FALSE /\ dg = <<>>
+Init == stack = <<>> /\ prog = <<>> /\ hasv = FALSE /\ hasu = FALSE /\ done = FALSE /\ dg = <<>> /\ pcst = <<>>
+PTop(n) == pcst[Len(pcst) - n + 1]
 
 Push(t, ty) ==
   /\ ~done /\ Len(prog) < MaxTok /\ Len(stack) < MaxStack
@@ -80,6 +84,7 @@ Push(t, ty) ==
   /\ hasv' = (hasv \/ t \in VToks)
   /\ hasu' = (hasu \/ t \in UToks)
   /\ dg' = Append(dg, LeafDeg(t))
+  /\ pcst' = Append(pcst, t \in {"c", "two", "three", "half"})
   /\ UNCHANGED done
 
 Un(t, from, to) ==
@@ -88,6 +93,7 @@ Un(t, from, to) ==
   /\ prog' = Append(prog, t)
   /\ DegOK(UnDeg(t, DTop(1)))
   /\ dg' = Append(SubSeq(dg, 1, Len(dg) - 1), UnDeg(t, DTop(1)))
+  /\ pcst' = Append(SubSeq(pcst, 1, Len(pcst) - 1), t = "sq" /\ PTop(1))
   /\ UNCHANGED <<hasv, hasu, done>>
 
 Bin(t, a, b, to) ==       \* a is the deeper operand
@@ -95,7 +101,9 @@ Bin(t, a, b, to) ==       \* a is the deeper operand
   /\ stack' = Append(Pop(2), to)
   /\ prog' = Append(prog, t)
   /\ DegOK(BinDeg(t, DTop(2), DTop(1)))
+  /\ (Poly /\ t = "/") => PTop(1)                    \* polynomial fragment: divide by positive constants only
   /\ dg' = Append(SubSeq(dg, 1, Len(dg) - 2), BinDeg(t, DTop(2), DTop(1)))
+  /\ pcst' = Append(SubSeq(pcst, 1, Len(pcst) - 2), t \in {"+", "*", "/"} /\ PTop(2) /\ PTop(1))
   /\ UNCHANGED <<hasv, hasu, done>>
 
 (* non-square matrices: the input field B of shape (Dim+1) x Dim ("Tl" tall), its transpose ("Wd" wide), and the
@@ -114,7 +122,7 @@ Finish ==
   /\ ~done /\ stack = <<"S">> /\ hasv
   /\ done' = TRUE
   /\ Emit("FORM", [tokens |-> prog, dim |-> Dim, bilinear |-> hasu, deg |-> dg[1]])
-  /\ UNCHANGED <<stack, prog, hasv, hasu, dg>>
+  /\ UNCHANGED <<stack, prog, hasv, hasu, dg, pcst>>
 
 Next ==
   \/ \E t \in LeafS : Push(t, "S")
@@ -146,6 +154,6 @@ Spec == Init /\ [][Next]_vars
 TypeOK == /\ \A i \in 1..Len(stack) : stack[i] \in {"S", "D", "V", "M", "Tl", "Wd", "Q", "VQ"}
           /\ Len(stack) <= MaxStack /\ Len(prog) <= MaxTok
           /\ done => (stack = <<"S">> /\ hasv)
-          /\ Len(dg) = Len(stack)
+          /\ Len(dg) = Len(stack) /\ Len(pcst) = Len(stack)
           /\ Poly => \A i \in 1..Len(dg) : DegOK(dg[i])
 =============================================================================
